@@ -10,6 +10,7 @@ import (
 	"fmt"
 
 	"github.com/kelindar/column"
+	"github.com/kelindar/column/commit"
 )
 
 type probe struct {
@@ -18,6 +19,8 @@ type probe struct {
 }
 
 var probesByProp = map[string][]probe{
+	"C01": {{"varlen-merge-sections/value", probeVarlenSections}},
+	"C09": {{"varlen-merge-sections/merge-lost", probeVarlenSections}},
 	"C03": {{"varlen-merge-then-put/index", probeVarlen}},
 	"C16": {{"varlen-merge-then-put/sorted", probeVarlen}},
 	"C19": {{"varlen-merge-then-put/trigger", probeVarlen}},
@@ -86,6 +89,44 @@ func probeVarlen(w *W, idx int, prop string) {
 	}
 	if d != "" {
 		w.Violate(idx, "probe:varlen", desc+d, kf, map[string]any{"phase": 1, "idx": idx})
+	}
+}
+
+// probeVarlenSections: two length-changing merges on one cell of a row in block 1, separated in the
+// column buffer by an operation on another block (so that they lie in two sections of block 1):
+// the Put appended for the first merge lands inside the second section and is applied after the
+// second merge - the primary itself loses the second merge (KF-VARLEN-MERGE-REORDER, multi-section form).
+func probeVarlenSections(w *W, idx int, prop string) {
+	wd := newWorld(64, false, false)
+	defer wd.Close()
+	wd.createColumn(ColSpec{"sc", KStringCat})
+	wd.createColumn(ColSpec{"x", KInt})
+	// a row in block 0 and a row in block 1 (the latter through Replay of a crafted commit)
+	t0 := TxnSpec{Ops: []Op{{T: "ins", W: []Write{{Col: "sc", V: Val{S: "a0"}}}}}}
+	wd.execTxn(wd.P, &t0, false, nil)
+	wd.M.Apply(t0.Ops)
+	row0 := t0.Ops[0].GotOff
+	const row1 = 16384 + 7
+	mk := func(name string) *commit.Buffer { b := commit.NewBuffer(64); b.Reset(name); return b }
+	rb, sb := mk("row"), mk("sc")
+	rb.PutOperation(commit.Insert, row1)
+	sb.PutString(commit.Put, row1, "b0")
+	if err := wd.P.Replay(commit.Commit{ID: 1, Chunk: 1, Updates: []*commit.Buffer{rb, sb}}); err != nil {
+		panic(err)
+	}
+	wd.M.Live[row1] = true
+	wd.M.Cells["sc"][row1] = Val{S: "b0"}
+	t := TxnSpec{Ops: []Op{
+		{T: "at", Off: row1, W: []Write{{Col: "sc", Merge: true, V: Val{S: "-first"}}}},
+		{T: "at", Off: row0, W: []Write{{Col: "sc", V: Val{S: "other block"}}}},
+		{T: "at", Off: row1, W: []Write{{Col: "sc", Merge: true, V: Val{S: "-second"}}}},
+	}}
+	wd.execTxn(wd.P, &t, false, nil)
+	wd.M.Apply(t.Ops)
+	st := dumpState(wd.P, wd.M.view(nil))
+	if d := cmpValues(st, wd.M); d != "" {
+		w.Violate(idx, "probe:varlen-sections", "txn{at(block-1 row) sc+=\"-first\"; at(block-0 row) sc=...; at(block-1 row) sc+=\"-second\"} (concatenating merge): "+d,
+			"KF-VARLEN-MERGE-REORDER", map[string]any{"phase": 1, "idx": idx})
 	}
 }
 
